@@ -2,21 +2,15 @@
 match, accumulate-not-overwrite, completeness test).  Attribution of values to call trees is NOT decided."""
 import ast
 
-from ..astq import Facts, compare_normal, conds, expand, is_name, is_self_attr, kwarg, returns_of, returns_with_conds
+from ..astq import Facts, compare_normal, conds, ends_in_jump, expand, facts_of, is_name, is_self_attr, kwarg, returns_of, returns_with_conds
 from ..cfg import CFG
-from ..core import AnalysisError, norm, walk_local
+from ..core import order, AnalysisError, norm, walk_local
 from ..xform import query as Q
 from ..xform.terms import In, Node, Raise, Visit, walk
 
 
 def guards(node, fn):
-    out = []
-    cur, child = getattr(node, "_parent", None), node
-    while cur is not None and cur is not fn:
-        if isinstance(cur, ast.If):
-            out.append(norm(cur.test) if any(child is b for b in cur.body) else f"not ({norm(cur.test)})")
-        child, cur = cur, getattr(cur, "_parent", None)
-    return out
+    return conds(node, fn)
 
 
 def run(repo, chk):
@@ -63,23 +57,24 @@ def run(repo, chk):
     chk.ob("R07.1", "interpret.Interactor.exit:closes-every-registered-accumulator", ok, ie.where, "exit() closes every accumulator in to_close, unconditionally")
     en = repo.func("overlay.proceed.__enter__")
     chk.ob("R07.1", "overlay.proceed.__enter__:interactor-of-this-activation", any(isinstance(n, ast.Assign) and any(norm(e) == "self.interactor" for t in n.targets for e in (t.elts if isinstance(t, ast.Tuple) else [t]))
-           and "self.curr.proceed(self.fn)" in norm(n.value) for n in walk_local(en.node)), en.where, "the interactor closed at exit is the one created for this activation")
+           and expand(n.value, en.node) == "self.curr.proceed(self.fn)" for n in walk_local(en.node)), en.where, "the interactor closed at exit is the one created for this activation")
 
     # ---------------- R07.2
     pr = repo.func("overlay.HandlerCollection.proceed")
-    reads = [n for n in walk_local(pr.node) if isinstance(n, ast.Assign) and any(is_name(t, "is_template") for t in n.targets)]
-    forks = [n for n in walk_local(pr.node) if isinstance(n, ast.Assign) and any(is_name(t, "acc") for t in n.targets) and isinstance(n.value, ast.Call)
-             and isinstance(n.value.func, ast.Attribute) and n.value.func.attr == "fork"]
-    regs = [c for c in ast.walk(pr.node) if isinstance(c, ast.Call) and isinstance(c.func, ast.Attribute) and c.func.attr == "register"]
-    ok = len(reads) == 1 and norm(reads[0].value) == "acc.template" and len(forks) == 1 and reads[0].lineno < forks[0].lineno
+    from .proceed_shape import proceed_shape
+    P = proceed_shape(repo)
+    forks, regs = P.forks, P.regs
+    ok = len(forks) == 1 and any(f"{P.acc}.template" in c.split(" or ") for c in P.xconds(forks[0]))
     chk.ob("R07.2", "overlay.HandlerCollection.proceed:template-flag-read-before-fork", ok, pr.where,
            "whether this is the outermost match (acc.template) is read before the accumulator is replaced by its fork (a fork is never a template)")
-    ok = len(regs) == 1 and kwarg(regs[0], "close_at_exit") is not None and is_name(kwarg(regs[0], "close_at_exit"), "is_template")
+    flag = kwarg(regs[0], "close_at_exit") if len(regs) == 1 else None
+    flag_reads = [a_ for a_ in ast.walk(P.loop) if isinstance(a_, ast.Assign) and len(a_.targets) == 1 and isinstance(flag, ast.Name) and is_name(a_.targets[0], flag.id)]
+    ok = flag is not None and len(flag_reads) == 1 and norm(flag_reads[0].value) == f"{P.acc}.template" and len(forks) == 1 and order(flag_reads[0]) < order(forks[0]) < order(regs[0])
     chk.ob("R07.2", "overlay.HandlerCollection.proceed:close_at_exit=is_template", ok, pr.where,
-           f"the accumulator is registered for closing exactly when this activation is the outermost match (close_at_exit={norm(kwarg(regs[0], 'close_at_exit')) if regs and kwarg(regs[0], 'close_at_exit') is not None else 'missing'})")
+           f"the accumulator is registered for closing exactly when this activation is the outermost match (close_at_exit={norm(flag) if flag is not None else 'missing'}, read from the accumulator before it is forked)")
     rg = repo.func("interpret.Interactor.register")
     apps = [c for c in ast.walk(rg.node) if isinstance(c, ast.Call) and norm(c.func) == "self.to_close.append"]
-    ok = len(apps) == 1 and is_name(apps[0].args[0], rg.node.args.args[1].arg) and sorted(guards(apps[0], rg.node)) == sorted(["close_at_exit and acc.close"])
+    ok = len(apps) == 1 and is_name(apps[0].args[0], rg.node.args.args[1].arg) and sorted(guards(apps[0], rg.node)) == sorted([rg.node.args.args[3].arg, f"{rg.node.args.args[1].arg}.close"])
     chk.ob("R07.2", "interpret.Interactor.register:honours-close_at_exit", ok, rg.where, "register queues the accumulator for closing iff close_at_exit (and it has a close function)")
     fk = repo.func("interpret.BaseAccumulator.fork")
     c = [x for x in ast.walk(fk.node) if isinstance(x, ast.Call) and kwarg(x, "template") is not None]
@@ -91,7 +86,7 @@ def run(repo, chk):
     # ---------------- R07.3
     tl = repo.func("interpret.Total.log")
     calls = [c for c in ast.walk(tl.node) if isinstance(c, ast.Call) and isinstance(c.func, ast.Attribute) and c.func.attr in ("accum", "set")]
-    chk.ob("R07.3", "interpret.Total.log:accumulates", [c.func.attr for c in calls] == ["accum"] and "self.getcap(element)" in norm(tl.node), tl.where,
+    chk.ob("R07.3", "interpret.Total.log:accumulates", [c.func.attr for c in calls] == ["accum"] and facts_of(tl).has("self.getcap(element).accum(varname, value)", exactly=[]), tl.where,
            "Total.log appends the value to the capture of the element (never Capture.set)")
     ca = repo.func("interpret.Capture.accum")
     aps = sorted(norm(c.func) for c in ast.walk(ca.node) if isinstance(c, ast.Call) and isinstance(c.func, ast.Attribute) and c.func.attr == "append")
@@ -109,33 +104,26 @@ def run(repo, chk):
 
     # ---------------- R07.4
     tc = repo.func("interpret.Total.close")
-    g_root = [n for n in walk_local(tc.node) if isinstance(n, ast.If) and norm(n.test) == "self.parent is None"]
-    chk.ob("R07.4", "interpret.Total.close:only-from-root", len(g_root) == 1 and len(tc.node.body) <= 2 and tc.node.body[-1] is g_root[0], tc.where,
+    ftc = facts_of(tc)
+    closes = [(t, c, n) for t, c, n in ftc.items if isinstance(n, ast.Call) and isinstance(n.func, ast.Attribute) and n.func.attr == "_close"]
+    chk.ob("R07.4", "interpret.Total.close:only-from-root", bool(closes) and all("self.parent is None" in c for _, c, _ in closes), tc.where,
            "only the root accumulator of an outermost match emits records")
-    closes = [c for c in ast.walk(tc.node) if isinstance(c, ast.Call) and isinstance(c.func, ast.Attribute) and c.func.attr == "_close"]
-    ok = False
-    why = "no leaf._close(args) call"
+    ok, why = False, "no leaf._close(args) call"
     if len(closes) == 1:
-        gs = guards(closes[0], tc.node)
-        cond = [x for x in gs if "names" in x]
-        ok = len(cond) == 1
-        if ok:
-            test = None
-            cur = closes[0]
-            while not (isinstance(cur, ast.If) and "names" in norm(cur.test)):
-                cur = cur._parent
-            t = cur.test
-            ok = isinstance(t, ast.Compare) and len(t.ops) == 1 and isinstance(t.ops[0], ast.Eq) and \
-                sorted([norm(t.left), norm(t.comparators[0])]) == sorted(["set(args)", "leaf.names"])
-            why = f"condition is `{norm(t)}`"
+        t, c, n = closes[0]
+        recv = norm(n.func.value)
+        built = f"{recv}.build()"
+        complete = [x for x in c if x in (f"set({built}) == {recv}.names", f"{recv}.names == set({built})")]
+        ok = bool(complete) and len(n.args) == 1 and expand(n.args[0], tc.node) == built
+        why = f"`{t}` runs when {[x for x in c if 'names' in x]}"
     chk.ob("R07.4", "interpret.Total.close:record-iff-all-names-captured", ok, tc.where,
            f"a leaf's record is emitted iff the set of captured names equals the required names ({why}): incomplete calls produce no record, and nothing is emitted with missing variables")
-    loops = [n for n in walk_local(tc.node) if isinstance(n, ast.For)]
-    ok = len(loops) == 1 and norm(loops[0].iter) in ("leaves or [self]",) and any(isinstance(n, ast.Assign) and norm(n) == "args = leaf.build()" for n in ast.walk(loops[0]))
+    ok = len(closes) == 1 and ftc.loops(closes[0][2]) == [f"for {norm(closes[0][2].func.value)} in self.leaves() or [self]"]
     chk.ob("R07.4", "interpret.Total.close:one-record-per-leaf", ok, tc.where, "one record per leaf (per binding of the focus), each built from the leaf's own captures plus its parents'")
     ti = repo.func("interpret.Total.__init__")
-    tt = norm(ti.node)
-    ok = "self.names = self.selector.all_captures" in tt and "self.names = self.parent.names" in tt and "self.parent.children.append(self)" in tt
+    fti = facts_of(ti)
+    ok = fti.has("self.names = self.selector.all_captures", exactly=["self.parent is None"]) and fti.has("self.names = self.parent.names", exactly=["self.parent is not None"]) \
+        and fti.has("self.parent.children.append(self)", exactly=["self.parent is not None"])
     chk.ob("R07.4", "interpret.Total.__init__:required-names-and-children", ok, ti.where,
            "the required names are the selector's captures (inherited by forks), and every fork is recorded as a child of its parent")
     lv = repo.func("interpret.Total.leaves")
@@ -146,16 +134,25 @@ def run(repo, chk):
     chk.ob("R07.4", "interpret.Total.leaves:leaf-is-an-element-fork", ok, lv.where,
            "leaves are the forks made for a focused element; inner nodes contribute the leaves of their children")
     bd = repo.func("interpret.BaseAccumulator.build")
-    tb = norm(bd.node)
-    chk.ob("R07.4", "interpret.BaseAccumulator.build:walks-parent-chain", "while curr: rval.update(curr.captures) curr = curr.parent" in tb.replace("\n", " ") or
-           ("rval.update(curr.captures)" in tb and "curr = curr.parent" in tb), bd.where, "a record merges the captures of the leaf and of all its parents")
+    fbd = facts_of(bd)
+    ups = [n for t, c, n in fbd.items if isinstance(n, ast.Call) and isinstance(n.func, ast.Attribute) and n.func.attr == "update" and len(n.args) == 1 and norm(n.args[0]).endswith(".captures")]
+    ok = False
+    if len(ups) == 1:
+        cur_ = norm(ups[0].args[0])[: -len(".captures")]
+        acc_ = norm(ups[0].func.value)
+        ok = fbd.loops(ups[0]) == [f"while {cur_}"] and any(fbd.loops(n) == [f"while {cur_}"] for n in fbd.find(f"{cur_} = {cur_}.parent")) \
+            and fbd.has(f"{cur_} = self") and fbd.has(f"return {acc_}") and fbd.has(f"{acc_} = {{}}")
+    chk.ob("R07.4", "interpret.BaseAccumulator.build:walks-parent-chain", ok, bd.where, "a record merges the captures of the leaf and of all its parents")
 
     # ---------------- R07.5
     af = repo.func("interpret.Total.accumulator_for")
-    r = returns_of(af.node)
-    ok = len(r) == 1 and isinstance(r[0].value, ast.IfExp) and norm(r[0].value.test) == "element.focus" and norm(r[0].value.body) == "self.fork(selector=element)" and is_name(r[0].value.orelse, "self")
+    faf = facts_of(af)
+    ep = af.node.args.args[1].arg
+    ok = faf.has(f"return self.fork(selector={ep})", exactly=[f"{ep}.focus"]) and faf.has("return self", exactly=[f"not {ep}.focus"]) and ends_in_jump(af.node.body)
     chk.ob("R07.5", "interpret.Total.accumulator_for:fork-on-focus", ok, af.where, "a focused element gets its own fork (one record per binding of the focus, sharing the outer values)")
     mr = repo.func("probe.Probe._make_rule")
-    tm = norm(mr.node)
-    ok = "if probe_type != 'total' and (sel.focus or probe_type == 'immediate'):" in tm and "return Total(sel, close=self._make_emitter(sel))" in tm
+    fmr = facts_of(mr)
+    imm = [c for t, c, n in fmr.starting("return Immediate(") if isinstance(n, ast.Return)]
+    ok = fmr.has("return Total(sel, close=self._make_emitter(sel))", exactly=["not ((sel.focus or probe_type == 'immediate') and probe_type != 'total')"]) \
+        and bool(imm) and all({"probe_type != 'total'", "probe_type == 'immediate' or sel.focus"} <= set(c) for c in imm) and ends_in_jump(mr.node.body)
     chk.ob("R07.5", "probe.Probe._make_rule:total-for-focus-free-or-forced", ok, mr.where, "a selector without focus, or probe_type='total', uses a Total accumulator whose close function is the emitter")
